@@ -325,6 +325,8 @@ struct CallObs {
     visit_inconclusive: bool,
     /// Ok items delivered (containers) / output length (decompression)
     delivered: u64,
+    /// a size_hint lower bound that exceeded the items that followed: (lower bound, items)
+    hint_excess: Option<(u64, u64)>,
     panic: Option<String>,
 }
 
@@ -401,6 +403,10 @@ where
         visit_budget_exhausted: anyvalue::budget_exhausted() && visit_bound(bytes.len(), limit) <= VISIT_CAP,
         visit_inconclusive: anyvalue::budget_exhausted() && visit_bound(bytes.len(), limit) > VISIT_CAP,
         delivered: DELIVERED.with(|d| d.replace(0)),
+        hint_excess: {
+            let h = HINT_EXCESS.with(|h| h.replace((0, 0)));
+            if h.0 > h.1 { Some(h) } else { None }
+        },
         panic,
     }
 }
@@ -446,6 +452,16 @@ fn judge_call(o: &CallObs, input_len: usize, limit: usize, akind: &str, workspac
                 if workspace == TIGHT { "limit + 1 KiB: equal blocks, each within the limit".to_string() } else { format!("max(4*limit+64KiB+8*input, codec workspace {workspace})") },
                 o.outcome,
                 o.err
+            ),
+        ));
+    }
+    if let Some((lower, items)) = o.hint_excess {
+        return Some(Failure::new(
+            "size-hint-from-untrusted-count",
+            format!("C05 size-hint-from-untrusted-count entry={} artefact={akind}", o.entry),
+            format!(
+                "{}: size_hint() promised at least {lower} more item(s) where only {items} followed on a {input_len}-byte {akind} input - collect() / extend() reserve memory for that lower bound, which is taken from a count declared in the data",
+                o.entry
             ),
         ));
     }
@@ -499,6 +515,46 @@ fn datum_calls(schema: &Schema, bytes: &[u8], plan: &SourcePlan, limit: usize, r
     out
 }
 
+thread_local! {
+    /// (lower bound of size_hint, items that actually followed) of the worst sample of the call
+    static HINT_EXCESS: std::cell::Cell<(u64, u64)> = const { std::cell::Cell::new((0, 0)) };
+}
+
+/// Drains an iterator of results with a bound on the number of `next()` calls, counting what is
+/// delivered and sampling `size_hint()` after every item: its lower bound is a promise (consumers
+/// like `collect` reserve memory for it), so it must never exceed what the iterator still yields.
+fn drain<T, E: std::fmt::Display>(it: &mut impl Iterator<Item = Result<T, E>>, max_items: usize) -> Result<(), String> {
+    let mut last = Ok(());
+    let mut hints: Vec<(usize, usize)> = vec![];
+    let mut yielded = 0usize;
+    let mut ended = false;
+    while yielded <= max_items {
+        match it.next() {
+            None => {
+                ended = true;
+                break;
+            }
+            Some(item) => {
+                yielded += 1;
+                match item {
+                    Err(e) => last = Err(e.to_string()),
+                    Ok(_) => delivered(1),
+                }
+                hints.push((yielded, it.size_hint().0));
+            }
+        }
+    }
+    if ended {
+        for (at, lower) in hints {
+            let remaining = yielded - at;
+            if lower > remaining && (lower - remaining) as u64 > HINT_EXCESS.with(|h| h.get().0.saturating_sub(h.get().1)) {
+                HINT_EXCESS.with(|h| h.set((lower as u64, remaining as u64)));
+            }
+        }
+    }
+    last
+}
+
 fn run_calls(case: &Case, b: &Built, bytes: &[u8], limit: usize) -> Vec<CallObs> {
     let plan = plan_of(case);
     match &case.artefact {
@@ -522,32 +578,12 @@ fn run_calls(case: &Case, b: &Built, bytes: &[u8], limit: usize) -> Vec<CallObs>
             let schema = b.schema.as_ref().unwrap();
             let max_items = b.items + 8;
             let mut v = vec![observe_call("container.iter", bytes, &plan, limit, |src| {
-                let rd = Reader::new(src).map_err(|e| format!("open: {e}"))?;
-                let mut last = Ok(());
-                for (i, item) in rd.enumerate() {
-                    if i > max_items {
-                        break;
-                    }
-                    match item {
-                        Err(e) => last = Err(e.to_string()),
-                        Ok(_) => delivered(1),
-                    }
-                }
-                last
+                let mut rd = Reader::new(src).map_err(|e| format!("open: {e}"))?;
+                drain(&mut rd, max_items)
             })];
             v.push(observe_call("container.deser_iter", bytes, &plan, limit, |src| {
                 let rd = Reader::new(src).map_err(|e| format!("open: {e}"))?;
-                let mut last = Ok(());
-                for (i, item) in rd.into_deser_iter::<Discard>().enumerate() {
-                    if i > max_items {
-                        break;
-                    }
-                    match item {
-                        Err(e) => last = Err(e.to_string()),
-                        Ok(_) => delivered(1),
-                    }
-                }
-                last
+                drain(&mut rd.into_deser_iter::<Discard>(), max_items)
             }));
             if case.reader_schema {
                 v.push(observe_call("container.iter+reader_schema", bytes, &plan, limit, |src| {
@@ -760,7 +796,39 @@ fn hostile_value(r: &mut Rng, limit: usize) -> i64 {
     ])
 }
 
+/// An embedded schema whose field default is odd for the field's type: the reader checks defaults
+/// while it parses the header, so this is decoding work on untrusted text too.
+fn hostile_default_schema(r: &mut Rng) -> String {
+    let (ty, default): (&str, &str) = *r.pick(&[
+        // 12 UTF-8 bytes but fewer than 12 characters, for a 12-byte fixed
+        (r#"{"type":"fixed","name":"D","size":12,"logicalType":"duration"}"#, r#""ÿÿÿÿÿÿ""#),
+        (r#"{"type":"fixed","name":"D","size":12,"logicalType":"duration"}"#, r#""éabcdefghij""#),
+        (r#"{"type":"fixed","name":"D","size":12,"logicalType":"duration"}"#, r#""\u0000\u0001\u0002""#),
+        (r#"{"type":"fixed","name":"F","size":4}"#, r#""ÿÿ""#),
+        (r#"{"type":"fixed","name":"F","size":4}"#, r#""\u0100\u0101\u0102\u0103""#),
+        (r#"{"type":"fixed","name":"U","size":16,"logicalType":"uuid"}"#, r#""ÿÿÿÿÿÿÿÿ""#),
+        (r#"{"type":"fixed","name":"M","size":3,"logicalType":"decimal","precision":5,"scale":2}"#, r#""\u00ff\u00ff""#),
+        (r#"{"type":"bytes","logicalType":"decimal","precision":4,"scale":1}"#, r#""""#),
+        (r#"{"type":"bytes","logicalType":"big-decimal"}"#, r#""\u0002""#),
+        (r#"{"type":"string","logicalType":"uuid"}"#, r#""not-a-uuid""#),
+        (r#"{"type":"enum","name":"E","symbols":["A","B"]}"#, r#""C""#),
+        (r#"{"type":"enum","name":"E","symbols":["A","B"],"default":"Z"}"#, r#""A""#),
+        (r#"["null","long"]"#, r#"7"#),
+        (r#"{"type":"array","items":"long"}"#, r#"[1,"x",null]"#),
+        (r#"{"type":"map","values":"long"}"#, r#"{"k":{"deep":[1,2]}}"#),
+        (r#"{"type":"record","name":"In","fields":[{"name":"x","type":"long"},{"name":"y","type":"string"}]}"#, r#"{"x":1}"#),
+        (r#"{"type":"long","logicalType":"timestamp-millis"}"#, r#"1e400"#),
+        (r#""int""#, r#"99999999999999999999"#),
+        (r#""float""#, r#""NaN""#),
+        (r#""bytes""#, r#""\ud800""#),
+    ]);
+    format!(r#"{{"type":"record","name":"R","fields":[{{"name":"a","type":"long"}},{{"name":"d","type":{ty},"default":{default}}}]}}"#)
+}
+
 fn hostile_schema(r: &mut Rng, limit: usize) -> String {
+    if r.chance(1, 2) {
+        return hostile_default_schema(r);
+    }
     let size: u64 = *r.pick(&[limit as u64 + 1, limit as u64 * 8 + 7, 1 << 31, 1 << 33, 1 << 40, (1u64 << 62) + 3, u32::MAX as u64, i64::MAX as u64]);
     match r.below(5) {
         0 => format!(r#"{{"type":"fixed","name":"F","size":{size}}}"#),
